@@ -102,7 +102,8 @@ def unsigned_to_bytes(k: int, as_callee: bool = False) -> Contract:
     return Contract(
         target=f"{MOD}:Serializer._unsigned_to_bytes", params=params, requires=["value >= 0"],
         ensures=[("as-many-bytes-as-hold-the-bits", f"result.n == {nb}"),
-                 ("bytes-are-the-little-endian-digits-of-the-truncated-value", f"smt('Bool', '(= {le_sum('{0}', '0', nb)} (mod {{1}} {2 ** k}))', result.arr, old(value))")],
+                 ("bytes-are-the-little-endian-digits-of-the-truncated-value", f"smt('Bool', '(= {le_sum('{0}', '0', nb)} (mod {{1}} {2 ** k}))', result.arr, old(value))")]
+        + [("result-bytes-are-bytes", "smt('Bool', '(and " + " ".join(f"(<= 0 (select {{0}} {i})) (<= (select {{0}} {i}) 255)" for i in range(nb)) + ")', result.arr)")],
         loops={0: Loop(unroll=True)}, result=nd_literal_len(nb), label=f"k={k}")
 
 
@@ -137,7 +138,7 @@ def add_unaligned_bytes(r: int, n: int) -> Contract:
         target=f"{MOD}:Serializer.add_unaligned_bytes", params={"self": ser_obj(r), "value": nd_literal_len(n)},
         requires=ser_pre(r, m),
         ensures=ser_post(r, 8 * n, m, val, ", value.arr"),
-        loops={0: Loop(unroll=True)}, modifies=["self._bit_offset", "self._buf.arr"], label=f"r={r},n={n}")
+        loops={0: Loop(unroll=True)}, modifies=["self._bit_offset", "self._buf.arr"], label=f"r={r},n={n}", timeout=300)
 
 
 def add_unaligned_unsigned(r: int, k: int) -> Contract:
@@ -319,7 +320,7 @@ def fetch_unaligned_bytes(r: int, n: int) -> Contract:
         ens.append(("bytes-are-the-zero-extended-bits-from-the-cursor",
                     f"smt('Bool', '(= {le_sum('{0}', '0', n)} (mod (div {src} {2 ** r}) {256 ** n}))', result.arr, self._buf._buf.arr, self._buf._buf.n, {DB_OLD})"))
     return Contract(target=f"{MOD}:Deserializer.fetch_unaligned_bytes", params={"self": des_obj(r), "count": VInt(str(n))}, requires=["self._bit_offset >= 0", UINT8_INPUT],
-                    ensures=ens + bytes_in_range("result.arr", n), loops={0: Loop(unroll=True)}, modifies=["self._bit_offset"], result=nd_literal_len(n), label=f"r={r},n={n}")
+                    ensures=ens + bytes_in_range("result.arr", n), loops={0: Loop(unroll=True)}, modifies=["self._bit_offset"], result=nd_literal_len(n), label=f"r={r},n={n}", timeout=300)
 
 
 def fetch_aligned_bytes(n: int) -> Contract:
